@@ -48,6 +48,25 @@ let parse_ds (s : string) : z list =
 
 let rec fact n = if n <= 1 then 1 else n * fact (n - 1)
 
+(* the bins of the initial ordered partition: the classes in order, each sorted (ints.Sort in
+   NewOrderedPartition); one bin 0..n-1 without classes *)
+let parse_cells (n : int) (s : string) : int list list =
+  if s = "-" then (if n = 0 then [] else [List.init n (fun i -> i)])
+  else if s = "" then []
+  else List.map (fun part -> List.sort compare (List.map int_of_string (String.split_on_char ',' part)))
+      (String.split_on_char '|' s)
+
+(* model of the m == 0 branch: the generators and the array it writes (strict part) *)
+let edgeless_strict (n : int) (m : bool list list) (clss : string) : string =
+  if n = 0 || List.exists (fun row -> List.mem true row) m then ""
+  else begin
+    let cells = List.map (List.map nat_of_int) (parse_cells n clss) in
+    let gens = edgeless_gens (nat_of_int n) cells in
+    let ds = edgeless_ds (List.init n (fun _ -> z_of_int 7)) cells in
+    let gs = if gens = [] then "-" else String.concat "/" (List.map (fun g -> String.concat "," (List.map (fun v -> string_of_int (int_of_nat v)) g)) gens) in
+    " ## eg=" ^ gs ^ ";" ^ ints (List.map int_of_z ds)
+  end
+
 let check (full : bool) (g6 : string) (clss : string) (genss : string) (dss : string) : string =
   let n, m = parse_g6 g6 in
   let nn = nat_of_int n in
@@ -55,6 +74,8 @@ let check (full : bool) (g6 : string) (clss : string) (genss : string) (dss : st
   let cls = cls_of (parse_cls n clss) in
   let gens = parse_gens genss in
   let ds = parse_ds dss in
+  let strict = edgeless_strict n m clss in
+  (fun v -> v ^ strict) @@
   if not (List.for_all (fun g -> is_automorphism nn adj cls g) gens) then "gens=0"
   else
     match labels_of_ds ds with
@@ -79,6 +100,37 @@ let check (full : bool) (g6 : string) (clss : string) (genss : string) (dss : st
       end;
       Buffer.contents b
 
+(* rst;<capn>;<g6>/<cls> ...: the array-level model of NewOrderedPartition / Reset
+   (coq/Canon/AutReset.v) threaded through the items; the visible state after every Reset goes
+   into the strict part (implementation detail: a difference is a warning, not a violation) *)
+let count_edges (m : bool list list) : int =
+  List.fold_left (fun a row -> a + List.length (List.filter (fun b -> b) row)) 0 m / 2
+
+let parse_classes_opt (s : string) : nat list list option =
+  if s = "-" then None
+  else Some (List.map (fun part -> List.map (fun v -> nat_of_int (int_of_string v)) (String.split_on_char ',' part))
+               (String.split_on_char '|' s))
+
+let show_state (st : opst) : string =
+  let (sl, (a, b)) = visible st in
+  String.concat "|" (List.map nats sl) ^ "|" ^ string_of_int (int_of_nat a) ^ "|" ^ string_of_int (int_of_nat b)
+
+let reset_case (capn : int) (items : string list) : string =
+  let capm = capn * (capn - 1) / 2 in
+  match new_op isort (nat_of_int capn) (nat_of_int capm) None with
+  | None -> "ok ## nil"
+  | Some op0 ->
+    let op = ref (Some op0) in
+    let out = List.map (fun it ->
+        match String.split_on_char '/' it, !op with
+        | g6 :: cls :: _, Some o ->
+          let n, m = parse_g6 g6 in
+          (match reset isort o (nat_of_int n) (nat_of_int (count_edges m)) (parse_classes_opt cls) with
+           | Some st -> op := Some st; show_state st
+           | None -> op := None; "panic")
+        | _, _ -> "panic") items in
+    "ok ## " ^ String.concat ";" out
+
 let () =
   try
     while true do
@@ -90,6 +142,8 @@ let () =
         | "chk", [_; g6; cls; gens; ds] -> (try check true g6 cls gens ds with _ -> "badcase")
         | "chkp", [_; g6; cls; gens; ds] -> (try check false g6 cls gens ds with _ -> "badcase")
         | ("chk" | "chkp"), _ -> "badcase"
+        | "rst", [_; capn; items] ->
+          (try reset_case (int_of_string capn) (List.filter (fun x -> x <> "") (String.split_on_char ' ' items)) with _ -> "badcase")
         | _ -> "ok"
       in
       print_string out; print_char '\n'
